@@ -75,6 +75,12 @@ def sym(name):
     return hx(name.upper().replace("-", "M"))
 
 
+INCLUDE_TEXTS = ['include str(1/0);', 'include chr(300);', 'include substr("abc", 1/0);', 'include "p" + str(1/0);', 'include 5;', 'include null;', 'include str();',
+                 'include "";', 'include "no/such/file.bloc";', 'a = 0; include str(1/a);', 'include str(tab(1, 1).at(5));', 'include lower(str(int("x")));',
+                 'function f return string is begin raise oops; return "x"; end; include f();', 'include hex(1, 1/0);', 'include "no/such" + chr(-1);',
+                 'begin include str(1/0); exception when others then nop; end;', 'include raw(1, 65);', 'include tab(1, "a");', 'include tup("a");']
+
+
 def classify_crash(r, big):
     """returns 'ood' for out-of-domain, else None"""
     s = r.sig or ""
@@ -235,7 +241,7 @@ class Sh:
         run_units(self.probe, [], units, self.res, self.on_crash, chunk=60)
 
     # ------------------------------------------------------------------ programs and bytes
-    def text_case(self, text, route, label):
+    def text_case(self, text, route, label, trusted=False):
         """text: bytes"""
         big = bool(re.search(rb"\d{7,}|[eE]\d{2,}|0[xX][0-9a-fA-F]{6,}", text)) or text.count(b"(") > 150 or text.count(b"begin") > 100
         if route == "cpp": ops = ["new A 0", "parse A P %s" % hx(text), "run A P 20000"]
@@ -244,6 +250,7 @@ class Sh:
         elif route == "expr": ops = ["new A 0", "pexpr A E %s" % hx(text), "eval A E 20000"]
         elif route == "cexpr": ops = ["new A 0", "cpexpr A E %s" % hx(text), "ceval A E 20000"]
         else: ops = ["new A 0", "istmt A %s 20000" % hx(text)]
+        if trusted: ops[0] = "new A 1"
         r = self.probe.case(ops)
         self.res["evaluations"] += 1; bump(self.res, "route_" + route)
         if r.timeout:
@@ -400,18 +407,24 @@ class Sh:
         env["LD_LIBRARY_PATH"] = os.path.join(bdir, "libonly")     # no module can be imported
         n = 130 if d["tier"] == "quick" else 2000
         try:
+            # statements that only a trusted context accepts (the bloc command's context is trusted): the path expression of
+            # include is evaluated while parsing.  No file is read by these texts (the expression fails or names nothing).
+            items = [(t, m, True) for t in INCLUDE_TEXTS for m in ("file", "stdin")]
             for i in range(n):
                 t = r.choice(base)
                 for _ in range(r.choice([0, 1, 2])):
                     t = corpus.mutate(t, r, BUILTINS)
                 if corpus.FORBIDDEN.search(t) or re.search(r"\b(while|loop|for|forall)\b", t) and r.random() < 0.5:
                     continue
+                items.append((t, r.choice(["file", "stdin", "expr"]), False))
+            for t, mode, trusted in items:
                 tb = t.encode("utf-8", "replace")
                 # only texts that terminate in-process without interruption are given to the binary (it has no step budget)
-                ex = self.text_case(tb, "cpp", "program")
+                ex = self.text_case(tb, "cpp", "program", trusted=trusted)
+                if trusted:
+                    for rt in ("capi", "istmt"): self.text_case(tb, rt, "program", trusted=True)
                 if ex is None:
                     continue
-                mode = r.choice(["file", "stdin", "expr"])
                 fn = os.path.join(work, "p.bloc")
                 open(fn, "wb").write(tb)
                 if mode == "file": cmd, inp = [blocbin, fn, "a1", "b 2"], None
